@@ -13,14 +13,16 @@ LEVEL = "exploration"
 N_QUICK, N_THOROUGH = 60000, 2000000
 T_QUICK, T_THOROUGH = 70, 1500
 CLASSES = ["index-get", "index-set", "negative-index", "length", "shape", "int-length", "string-too-long",
-           "bigger-items", "non-member", "wrong-context", "offset-no-buffer", "construct-shape"]
+           "bigger-items", "non-member", "wrong-context", "offset-no-buffer", "construct-shape", "struct-with-other-length"]
 FLOORS = {"attempts": 20000, "raised": 15000, "state_checks": 20000}
 FLOORS.update({"class:" + c: 300 for c in CLASSES})
+FLOORS.update({"multibyte_too_long_strings": 300, "misuse_value_as_xobject": 300})
 RULE = ("random type AST x value x placement with a neighbouring xobject; up to 8 misuse attempts per object, each at a "
         "random applicable element position, through handle or view: index outside shape (get/set, negative on "
         "static-item arrays), array update of different length / same count but different shape / integer length, "
         "string needing more slots than fixed at creation (struct field and array item), same-shape list with a "
-        "larger dynamic item, non-member object or type name to a union reference, buffer of another context, "
+        "larger dynamic item (as plain data or as an xobject of the same class), a struct instance/dict whose nested dynamic array has "
+        "another length, too-long strings also as multi-byte text whose character count would fit, non-member object or type name to a union reference, buffer of another context, "
         "explicit offset without buffer, construction with a wrong static shape; oracle: an exception is raised AND "
         "every previously live object re-reads equal to its model AND every previously live byte extent is unchanged. "
         "distinct = (name-erased AST, misuse class, position kind).")
@@ -28,7 +30,11 @@ ASSUMPTIONS = ["negative indices are out-of-range cases only on static-item arra
                "a too-long string is one whose utf-8 length + 1 exceeds the stored size - 8 at creation"]
 
 
+_W = [None]
+
+
 def run_case(w, rng):
+    _W[0] = w
     c = new_case(w, rng, roots=("st", "ar"), modes=(None, "aligned", "packed"))
     t, env = c.t, c.env
     try:
@@ -99,8 +105,14 @@ def _poskind(path):
     return "field" if path[-1][0] == "f" else "item"
 
 
-def _long_string(cur, rng):
+def _long_string(cur, rng, w=None):
     cap = slot(len(cur.encode("utf8")) + 1)  # data bytes incl. NUL fixed at creation
+    if rng.random() < 0.4:
+        # multi-byte text: the character count (+1) would fit, the utf-8 bytes (+1) do not
+        n = rng.randint(cap // 2, cap - 1)
+        if w is not None:
+            w.count("multibyte_too_long_strings")
+        return "\u00e9" * n
     n = cap + rng.choice([0, 1, 7, 8, 20])
     return "L" * n
 
@@ -169,11 +181,11 @@ def _plan(cls_, rng, c, allnodes, env):
         if not cand:
             return None
         p, l, nt, nv = rng.choice(cand)
-        s = _long_string(nv, rng)
+        s = _long_string(nv, rng, _W[0])
 
         def fn(base, p=p, s=s):
             set_path(base, p, s)
-        return _poskind(p), f"{l} = string of {len(s)} bytes (stored: {len(nv.encode('utf8'))})", fn
+        return _poskind(p), f"{l} = string of {len(s.encode('utf8'))} bytes / {len(s)} chars (stored: {len(nv.encode('utf8'))})", fn
     if cls_ == "bigger-items":
         cand = [a for a in owned if a[0] and not is_static(a[2]["it"]) and a[3].items and a[2]["it"]["k"] in ("str", "ar", "st")]
         if not cand:
@@ -187,10 +199,44 @@ def _plan(cls_, rng, c, allnodes, env):
             return None  # must really need more bytes than reserved at creation
         items[victim] = big
         newarg = plain(nt, AVal(nv.shape, items), rng)
+        how = "plain data"
+        if rng.random() < 0.4:
+            newarg = build(nt, c.cache)(newarg, _buffer=rng.choice([env.buf, None]))
+            env.repoison()
+            how = "xobject of the same class"
+            _W[0].count("misuse_value_as_xobject")
 
         def fn(base, p=p, newarg=newarg):
             set_path(base, p, newarg)
-        return f"{it['k']}-items", f"{l} = same shape, item {victim} larger", fn
+        return f"{it['k']}-items", f"{l} = same shape, item {victim} larger ({how})", fn
+    if cls_ == "struct-with-other-length":
+        # a struct-typed element assigned a value of the same class whose nested dynamic array has another length
+        cand = []
+        for p, l, nt, nv in allnodes:
+            if nt["k"] == "st" and p and not (l.endswith("->") or (l[-1].isdigit() and l[-3:-1] == "->")):
+                dyn = [(fn_, ft) for fn_, ft in nt["f"] if ft["k"] == "ar" and ft["dims"][0] is None and len(ft["dims"]) == 1
+                       and nv[fn_].shape[0] > 0]
+                if dyn:
+                    cand.append((p, l, nt, nv, dyn))
+        if not cand:
+            return None
+        p, l, nt, nv, dyn = rng.choice(cand)
+        fn_, ft = rng.choice(dyn)
+        n0 = nv[fn_].shape[0]
+        n1 = rng.choice([n0 - 1, n0 - 1, n0 + 1, 0])
+        newv = dict(vg.same_shape(nt, nv))
+        newv[fn_] = AVal((n1,), {(i,): vg.value(ft["it"]) for i in range(n1)})
+        newarg = plain(nt, newv, rng)
+        how = "dict"
+        if rng.random() < 0.6:
+            newarg = build(nt, c.cache)(newarg, _buffer=rng.choice([env.buf, None]))
+            env.repoison()
+            how = "instance"
+            _W[0].count("misuse_value_as_xobject")
+
+        def fn(base, p=p, newarg=newarg):
+            set_path(base, p, newarg)
+        return _poskind(p), f"{l} = {how} of the same class with {fn_} of length {n1} instead of {n0}", fn
     if cls_ == "non-member":
         cand = [x for x in allnodes if x[2]["k"] == "ur" and x[0]]
         if not cand:
